@@ -79,10 +79,25 @@ package platform
 // ---- C19 (c) / C17 (c): user options come after the platform's own options ------------------------------------------
 // platformOptsG: ghost output of AsOptions (the option list derived from the definition)
 //@ ghost platformOptsG []ref
-//@ func (*Platform).AsOptions
-//@   noverify
+//@ func (*Platform).AsOptions [C17]
+//@   assumed requires #option-values-have-their-documented-types forall i int :: 0 <= i && i < len(p.Options) ==> p.Options[i] != nil && docType(p.Options[i])
 //@   modifies platformOptsG, alloc()
+//@   at return set platformOptsG = result
 //@   ensures result == platformOptsG
+// each hook option gets the function made from the section of its own name (a function value is identified by the
+// function literal it was made from and by what it captured: closure(), bound())
+//@   at call! WithNetworkOnOpen#1 assert #the-network-on-open-hook-runs-the-network-on-open-steps closure(arg0, "(*onXDefinitions).asNetworkOnX$1") && bound(arg0, 0) == addrof(p.NetworkOnOpen)
+//@   at call! WithNetworkOnClose#1 assert #the-network-on-close-hook-runs-the-network-on-close-steps closure(arg0, "(*onXDefinitions).asNetworkOnX$1") && bound(arg0, 0) == addrof(p.NetworkOnClose)
+//@ func (*Platform).genericOptions [C17]
+//@   inline
+//@   at call! WithOnOpen#1 assert #the-on-open-hook-runs-the-on-open-steps closure(arg0, "(*onXDefinitions).asGenericOnX$1") && bound(arg0, 0) == addrof(p.OnOpen)
+//@   at call! WithOnClose#1 assert #the-on-close-hook-runs-the-on-close-steps closure(arg0, "(*onXDefinitions).asGenericOnX$1") && bound(arg0, 0) == addrof(p.OnClose)
+//@ func (*onXDefinitions).asNetworkOnX [C17]
+//@   modifies alloc()
+//@   ensures #the-hook-is-the-step-runner-over-the-receiver closure(result, "(*onXDefinitions).asNetworkOnX$1") && bound(result, 0) == addrof(o)
+//@ func (*onXDefinitions).asGenericOnX [C17]
+//@   modifies alloc()
+//@   ensures #the-hook-is-the-step-runner-over-the-receiver closure(result, "(*onXDefinitions).asGenericOnX$1") && bound(result, 0) == addrof(o)
 
 //@ func setDriver [C19 C17]
 //@   at call! NewDriver#1 assert #user-options-after-platform-options arg1 === platformOptsG ++ opts
